@@ -695,14 +695,15 @@ type reqJ struct {
 }
 
 type shJ struct {
-	Ran    bool        `json:"ran"`
-	Ok     bool        `json:"ok"`
-	Writes [][3]string `json:"writes"` // contract, key digest, value digest ("" = removal)
-	Keep   []string    `json:"keep"`
-	Moved  []int       `json:"moved"`
-	Req    []reqJ      `json:"req"`
-	Dest   string      `json:"dest"`
-	Err    string      `json:"err"`
+	Ran      bool        `json:"ran"`
+	Ok       bool        `json:"ok"`
+	Writes   [][3]string `json:"writes"` // contract, key digest, value digest ("" = removal)
+	Keep     []string    `json:"keep"`
+	Moved    []int       `json:"moved"`
+	Req      []reqJ      `json:"req"`
+	Deployed []string    `json:"deployed"` // wasm: sub-deployments the contract code asked for (committed by the runtime)
+	Dest     string      `json:"dest"`
+	Err      string      `json:"err"`
 }
 
 type effJ struct {
@@ -738,7 +739,7 @@ func nz(x []int) []int {
 
 func (x *Exec) effOf(c *sim.TxCapture, sh sim.ShadowResult, wsh sim.WasmShadowResult, target common.Address) effJ {
 	e := effJ{Req: []reqJ{}, Burnt: nz(sim.Limbs(c.Burnt)), Term: nz(sim.Limbs(c.Term)), Deployed: []string{}, Commits: c.Commit,
-		Sh: shJ{Writes: [][3]string{}, Keep: []string{}, Moved: []int{}, Req: []reqJ{}}}
+		Sh: shJ{Writes: [][3]string{}, Keep: []string{}, Moved: []int{}, Req: []reqJ{}, Deployed: []string{}}}
 	for a, v := range c.Requested() {
 		e.Req = append(e.Req, reqJ{A: x.W.Name(a), V: nz(sim.Limbs(v)), B: []int{}})
 	}
@@ -770,6 +771,9 @@ func (x *Exec) effOf(c *sim.TxCapture, sh sim.ShadowResult, wsh sim.WasmShadowRe
 		}
 		for _, w := range wsh.Writes {
 			e.Sh.Writes = append(e.Sh.Writes, [3]string{x.W.Name(w.A), w.K, w.V})
+		}
+		for _, a := range wsh.Deployed {
+			e.Sh.Deployed = append(e.Sh.Deployed, x.W.Name(a))
 		}
 	}
 	return e
@@ -1090,6 +1094,9 @@ func (x *Exec) run(s *State, kind string, op Op, caseID int, step int) bool {
 			wsh = n.RunWasmShadowOn(ref, blk.Header, tx, bought.Uint64())
 			for _, w := range wsh.Writes {
 				s.I.know(w.A)
+			}
+			for _, a := range wsh.Deployed {
+				s.I.know(a)
 			}
 			if wsh.Ran && wsh.GasUsed != rc.GasUsed {
 				x.Stats["wasm_shadow_gas_differs"]++
